@@ -35,6 +35,7 @@ def shards(tier, seed):
         for mm in ((3, 8), (4, 12), (4, 25)):
             for nb in (1, 2):
                 out.append(dict(name="rec/L%d/m%d-%d/b%d" % (L, mm[0], mm[1], nb), kind="rec", L=L, mm=mm, nb=nb, weight=L * 50 * nb))
+    out.append(dict(name="rec/L300/m4-25/b1", kind="rec", L=300, mm=(4, 25), nb=1, long=True, weight=30000))
     if tier != "quick":
         out.append(dict(name="rec/L600/m4-25/b1", kind="rec", L=600, mm=(4, 25), nb=1, long=True, weight=60000))
     for L in ((80,) if tier == "quick" else (80, 120)):
@@ -113,6 +114,8 @@ def run_rec(rec, sh, tier, seed):
     if nb == 1:
         bumpsets = [(b,) for b in bumps1]
         ns = (1, 2, 3) if tier != "quick" else (1, 2)
+        if sh.get("long"):
+            ns = (1, 12)              # also many examples
     else:
         firsts = [(w, sg, 3.0, s) for w in widths[:2] for sg in (1, -1) for s in (0, 1, 2, L // 2)]
         seconds = [(w, sg, 1.0, s) for w in widths[:2] for sg in (1, -1) for s in range(0, L - widths[1] + 1, 1 if tier != "quick" else 2)]
